@@ -12,7 +12,8 @@ Property theorems for C11 (layout and delivery do not change the meaning), parts
   hypothesis is necessary: the real lexer never checks the first line), `trailing_ws`, `paren_break`,
   `paren_break_two`, `dent_balanced`, `dent_balanced_counts`, tables `lexer_layout_table`, `newline_grammar_table`
 * stdin splitter model (`Model/Stdin.lean`, stone/cli.py): `stdin_split`, `stdin_split_names`,
-  `stdin_split_string`, `stdin_split_witness`, table `stdin_split_table`
+  `stdin_split_preamble`, `stdin_split_string`, `stdin_split_regression` (D14 repaired), `stdin_split_witness`
+  (what still cuts a text: a doc-string line beginning with the word), table `stdin_split_table`
 
 File order, definition order and splitting (part B of the check) are NOT theorems here: they are tested on the
 real compiler and the real backends by harness/suites/layout.py.
@@ -221,57 +222,74 @@ example : (lex [⟨0, .sig [.other 0] .none⟩, ⟨8, .sig [.other 1, .lpar] .no
 /-! ## Standard input -/
 open StoneVerif.Stdin
 
-/-- the separator and the literals of the stdin branch of `stone.cli.main` -/
+/-- the pattern and the literals of the stdin branch of `stone.cli.main` -/
 theorem stdin_split_table :
-    Tables.stdinSplitSeparators = [String.ofList kw] ∧
-    Tables.stdinSplitLiterals = ["stdin.1", "stdin.1", "{}namespace{}", "stdin.%s", "namespace%s"] := by decide
+    Tables.stdinSplitSeparators = ["(?m)^(?=" ++ String.ofList kw ++ "\\b)"] ∧
+    Tables.stdinSplitLiterals = ["stdin.1", "stdin.1", "stdin.%s"] := by decide
 
-/-- **stdin_split**: if every text starts with the keyword `namespace` and contains the substring `namespace`
-exactly once, cutting their concatenation gives the texts back, in order. -/
-theorem stdin_split (ts : List (List Char)) (hne : ts ≠ [])
-    (h : ∀ t ∈ ts, kw <+: t ∧ occ kw t = 1) :
-    (splitStdinL ts.flatten).map Prod.snd = ts :=
-  (splitStdinL_flatten ts hne h).1
+/-- **stdin_split**: texts that each begin with `namespace` followed by a non-word character (or nothing), have no
+other line beginning that way and end with a newline: cutting their concatenation gives the texts back, in order.
+`w` is Python's `\w`, left arbitrary.  (An identifier, a documentation string or a comment containing the word
+`namespace` does not matter any more: see `stdin_split_regression`.) -/
+theorem stdin_split (w : Char → Bool) (ts : List (List Char)) (hne : ts ≠ []) (h : ∀ t ∈ ts, Good w t) :
+    (splitStdinW w ts.flatten).map Prod.snd = ts := by
+  cases ts with
+  | nil => exact absurd rfl hne
+  | cons t1 rest => simpa using (splitStdinW_flatten w [] t1 rest rfl rfl h).1
 
 /-- ... under the names `stdin.1`, `stdin.2`, ... -/
-theorem stdin_split_names (ts : List (List Char)) (hne : ts ≠ [])
-    (h : ∀ t ∈ ts, kw <+: t ∧ occ kw t = 1) :
-    (splitStdinL ts.flatten).map Prod.fst = List.range' 1 ts.length :=
-  (splitStdinL_flatten ts hne h).2
+theorem stdin_split_names (w : Char → Bool) (ts : List (List Char)) (hne : ts ≠ []) (h : ∀ t ∈ ts, Good w t) :
+    (splitStdinW w ts.flatten).map Prod.fst = List.range' 1 ts.length := by
+  cases ts with
+  | nil => exact absurd rfl hne
+  | cons t1 rest => simpa using (splitStdinW_flatten w [] t1 rest rfl rfl h).2
+
+/-- text in front of the first `namespace` line (comments, blank lines: no line of it begins with the keyword, it is
+empty or ends with a newline) stays with the first spec -/
+theorem stdin_split_preamble (w : Char → Bool) (p t1 : List Char) (rest : List (List Char))
+    (hp0 : starts w true p = 0) (hpnl : Stdin.endsNL p = true) (h : ∀ t ∈ t1 :: rest, Good w t) :
+    (splitStdinW w (p ++ (t1 :: rest).flatten)).map Prod.snd = (p ++ t1) :: rest :=
+  (splitStdinW_flatten w p t1 rest hp0 hpnl h).1
 
 /-- the same on `String`s, as `stone.cli.main` hands them to `specs_to_ir` -/
-theorem stdin_split_string (ts : List String) (hne : ts ≠ [])
-    (h : ∀ t ∈ ts, kw <+: t.toList ∧ occ kw t.toList = 1) :
+theorem stdin_split_string (ts : List String) (hne : ts ≠ []) (h : ∀ t ∈ ts, Good asciiWord t.toList) :
     (splitStdin (String.join ts)).map Prod.snd = ts := by
-  have h' : ∀ t ∈ ts.map String.toList, kw <+: t ∧ occ kw t = 1 := by
+  have h' : ∀ t ∈ ts.map String.toList, Good asciiWord t := by
     intro t ht
     simp only [List.mem_map] at ht
     obtain ⟨s, hs, rfl⟩ := ht
     exact h s hs
-  have := stdin_split (ts.map String.toList) (by simpa using hne) h'
-  unfold splitStdin
+  have := stdin_split asciiWord (ts.map String.toList) (by simpa using hne) h'
+  unfold splitStdin splitStdinL
   rw [toList_join, List.map_map]
   have e : (Prod.snd ∘ fun p : Nat × List Char => ("stdin." ++ toString p.1, String.ofList p.2))
       = String.ofList ∘ Prod.snd := by funext p; rfl
   rw [e, ← List.map_map, this, List.map_map]
   simp [Function.comp_def]
 
-example : (splitStdin "namespace a\nstruct S\n    f String\nnamespace b\nimport a\n").map Prod.snd
-    = ["namespace a\nstruct S\n    f String\n", "namespace b\nimport a\n"] := by decide
+example : Good asciiWord "namespace a\nstruct S\n    namespace_id String\n    \"namespace of things\"\n".toList :=
+  ⟨by decide, by decide, by decide⟩
+
+example : (splitStdin "# two specs\nnamespace a\nstruct S\n    f String\nnamespace b\nimport a\n")
+    = [("stdin.1", "# two specs\nnamespace a\nstruct S\n    f String\n"), ("stdin.2", "namespace b\nimport a\n")] := by
+  decide
 
 /-- a legal specification (it compiles from a file: checked by the harness on the real compiler) in which the
-substring `namespace` also occurs inside an identifier -/
+substring `namespace` also occurs inside an identifier: the witness of defect D14 -/
 def witness : String := "namespace a\nstruct S\n    namespace_id String\n"
 
-/-- **stdin_split_witness** (defect D14): the text is cut in the middle of the identifier `namespace_id`; the
-compiler receives two "specs", neither of which is the text. -/
-theorem stdin_split_witness :
-    splitStdin witness = [("stdin.1", "namespace a\nstruct S\n    "), ("stdin.2", "namespace_id String\n")] ∧
-    (splitStdin witness).map Prod.snd ≠ [witness] := by decide
+/-- **stdin_split_regression** (defect D14, repaired in the repository by commit de8ede2): the old code cut at every
+occurrence of the substring and handed `"namespace a\nstruct S\n    "` and `"namespace_id String\n"` to the
+compiler; the code modelled here keeps the text, and a documentation string that mentions the word, in one piece. -/
+theorem stdin_split_regression :
+    splitStdin witness = [("stdin.1", witness)] ∧
+    splitStdin "namespace a\n    \"The namespace of things.\"\n"
+      = [("stdin.1", "namespace a\n    \"The namespace of things.\"\n")] := by decide
 
-/-- the same for a documentation string that mentions the word -/
-theorem stdin_split_witness_doc :
-    (splitStdin "namespace a\n    \"The namespace of things.\"\n").map Prod.snd
-      = ["namespace a\n    \"The ", "namespace of things.\"\n"] := by decide
+/-- what remains (by design of the repair): a *line* that begins with the keyword starts a new spec, so a text is
+still cut if a line of a multi-line documentation string begins with the word `namespace` -/
+theorem stdin_split_witness :
+    (splitStdin "namespace a\n    \"Types of this\nnamespace and others.\"\n").map Prod.snd
+      = ["namespace a\n    \"Types of this\n", "namespace and others.\"\n"] := by decide
 
 end StoneVerif.C11
